@@ -25,7 +25,11 @@ theorem C12_skinny128 (t1 t2 : Tag) (ks1 ks2 : KeySched 64) (h1 : 56 ≤ ks1.sch
     · rw [show r1.1 = 1 from a1.mpr hin, show r2.1 = 1 from a2.mpr hin]
     · have n1 : r1.1 ≠ 1 := fun h => hin (a1.mp h)
       have n2 : r2.1 ≠ 1 := fun h => hin (a2.mp h)
-      rcases b1 with h | h <;> rcases b2 with h' | h' <;> simp_all
+      rcases b1 with h | h <;> rcases b2 with h' | h'
+      · exact h.trans h'.symm
+      · exact absurd h' n2
+      · exact absurd h n1
+      · exact absurd h n1
   refine ⟨hret, fun hr1 => ?_⟩
   have hr2 : r2.1 = 1 := by rw [← hret]; exact hr1
   exact ⟨by rw [(d1 hr1 blk).1, (d2 hr2 blk).1], by rw [(d1 hr1 blk).2, (d2 hr2 blk).2]⟩
@@ -44,7 +48,11 @@ theorem C12_skinny64 (t1 t2 : Tag) (ks1 ks2 : KeySched 32) (h1 : 40 ≤ ks1.sche
     · rw [show r1.1 = 1 from a1.mpr hin, show r2.1 = 1 from a2.mpr hin]
     · have n1 : r1.1 ≠ 1 := fun h => hin (a1.mp h)
       have n2 : r2.1 ≠ 1 := fun h => hin (a2.mp h)
-      rcases b1 with h | h <;> rcases b2 with h' | h' <;> simp_all
+      rcases b1 with h | h <;> rcases b2 with h' | h'
+      · exact h.trans h'.symm
+      · exact absurd h' n2
+      · exact absurd h n1
+      · exact absurd h n1
   refine ⟨hret, fun hr1 => ?_⟩
   have hr2 : r2.1 = 1 := by rw [← hret]; exact hr1
   exact ⟨by rw [(d1 hr1 blk).1, (d2 hr2 blk).1], by rw [(d1 hr1 blk).2, (d2 hr2 blk).2]⟩
